@@ -40,6 +40,7 @@ pub fn run(a: &Args) -> i32 {
     surrealkv::verif::set_manual_background(true);
     let mut run = Run::new("C01", a.tier, a.seed, "exploration");
     crate::scenarios::run_for(&mut run, "C01");
+    crate::matrix::run_for(&mut run, "C01");
     let c = campaign(a);
     let out = campaign::run_campaign(&c, a.seed, "c01");
     campaign::report_failures(&mut run, &out, &c.exec);
